@@ -75,6 +75,8 @@ pub enum Op {
     Variant(u32),
     SanLogReplay,
     EvalSym,
+    /// relocate one side's king to every empty square and compare check flags / move sets
+    KingGrid(bool),
 }
 
 #[derive(Clone, Debug, Serialize, Deserialize, PartialEq)]
@@ -84,21 +86,21 @@ pub struct BoardPlan {
     pub ops: Vec<Op>,
 }
 
-const OP_KINDS: usize = 19;
+const OP_KINDS: usize = 20;
 
 fn weights_for(focus: &str) -> [u32; OP_KINDS] {
     //            Play PlUci Probe ProbQ Take Find MkUci U2P MkAll SanAll SanBad Perft Chkp Corr Jump Trans Var Replay Eval
     match focus {
-        "C01" => [40, 5, 20, 15, 8, 0, 0, 0, 0, 0, 0, 8, 2, 0, 4, 0, 0, 0, 0],
-        "C02" => [60, 15, 2, 0, 6, 0, 2, 0, 6, 0, 0, 0, 3, 0, 5, 0, 0, 0, 0],
-        "C03" => [35, 5, 30, 5, 20, 0, 0, 0, 0, 0, 0, 3, 2, 0, 5, 0, 0, 0, 0],
-        "C05" => [45, 5, 30, 5, 6, 0, 0, 0, 0, 0, 0, 0, 2, 0, 6, 0, 0, 0, 0],
-        "C06" => [45, 5, 12, 0, 12, 0, 0, 0, 0, 0, 0, 0, 4, 0, 4, 10, 8, 0, 0],
-        "C11" => [50, 5, 0, 0, 5, 0, 0, 0, 0, 0, 0, 0, 2, 0, 8, 0, 0, 0, 30],
-        "C12" => [35, 5, 0, 0, 5, 0, 0, 0, 0, 0, 0, 0, 20, 25, 10, 0, 0, 0, 0],
-        "C13" => [25, 10, 0, 0, 6, 18, 14, 8, 12, 0, 4, 0, 2, 0, 4, 0, 0, 0, 0],
-        "C14" => [35, 5, 0, 0, 5, 0, 0, 4, 0, 25, 12, 0, 2, 0, 6, 0, 0, 6, 0],
-        _ => [30, 5, 8, 4, 6, 5, 5, 2, 4, 5, 3, 2, 4, 4, 4, 3, 3, 2, 1],
+        "C01" => [40, 5, 20, 15, 8, 0, 0, 0, 0, 0, 0, 8, 2, 0, 4, 0, 0, 0, 0, 6],
+        "C02" => [60, 15, 2, 0, 6, 0, 2, 0, 6, 0, 0, 0, 3, 0, 5, 0, 0, 0, 0, 0],
+        "C03" => [35, 5, 30, 5, 20, 0, 0, 0, 0, 0, 0, 3, 2, 0, 5, 0, 0, 0, 0, 0],
+        "C05" => [45, 5, 30, 5, 6, 0, 0, 0, 0, 0, 0, 0, 2, 0, 6, 0, 0, 0, 0, 25],
+        "C06" => [45, 5, 12, 0, 12, 0, 0, 0, 0, 0, 0, 0, 4, 0, 4, 10, 8, 0, 0, 0],
+        "C11" => [50, 5, 0, 0, 5, 0, 0, 0, 0, 0, 0, 0, 2, 0, 8, 0, 0, 0, 30, 0],
+        "C12" => [35, 5, 0, 0, 5, 0, 0, 0, 0, 0, 0, 0, 20, 25, 10, 0, 0, 0, 0, 0],
+        "C13" => [25, 10, 0, 0, 6, 18, 14, 8, 12, 0, 4, 0, 2, 0, 4, 0, 0, 0, 0, 0],
+        "C14" => [35, 5, 0, 0, 5, 0, 0, 4, 0, 25, 12, 0, 2, 0, 6, 0, 0, 6, 0, 0],
+        _ => [30, 5, 8, 4, 6, 5, 5, 2, 4, 5, 3, 2, 4, 4, 4, 3, 3, 2, 1, 2],
     }
 }
 
@@ -222,7 +224,8 @@ pub fn gen_plan(focus: &str, seed: u64, thorough: bool, pool: &[Pos]) -> BoardPl
             15 => Op::Transpose(rng.below(64) as u32, rng.below(64) as u32, rng.below(64) as u32),
             16 => Op::Variant(rng.below(4096) as u32),
             17 => Op::SanLogReplay,
-            _ => Op::EvalSym,
+            18 => Op::EvalSym,
+            _ => Op::KingGrid(rng.chance(1, 2)),
         };
         ops.push(op);
     }
@@ -1238,6 +1241,60 @@ impl<'a> BoardSim<'a> {
                 self.res.add("san_log_moves_replayed", self.san_log.len() as u64);
                 Ok(())
             }
+            Op::KingGrid(white) => {
+                let base = self.rf.clone();
+                let k = if *white { b'K' } else { b'k' };
+                let from = match base.king_sq(*white) {
+                    Some(s) => s,
+                    None => return Ok(()),
+                };
+                let mut checked = 0;
+                for t in 0..64u8 {
+                    if base.board[t as usize] != EMPTY {
+                        continue;
+                    }
+                    let mut v = base.clone();
+                    v.board[from as usize] = EMPTY;
+                    v.board[t as usize] = k;
+                    v.white_to_move = *white; // the relocated king may stand in check, so its side must be to move
+                    v.ep = None;
+                    if *white {
+                        v.castle[0] = false;
+                        v.castle[1] = false;
+                    } else {
+                        v.castle[2] = false;
+                        v.castle[3] = false;
+                    }
+                    if !v.is_sane() {
+                        continue;
+                    }
+                    let mut b = match Bitboard::from_fen_string(&v.to_fen()) {
+                        Ok(b) => b,
+                        Err(e) => return Err(viol("C12", "legal_fen_rejected", format!("{:?} -> {:?}", v.to_fen(), e))),
+                    };
+                    checked += 1;
+                    let wc = v.in_check(true);
+                    let bc = v.in_check(false);
+                    if b.is_in_check(&Color::WHITE) != wc || b.is_in_check(&Color::BLACK) != bc || b.is_current_in_check() != (if *white { wc } else { bc }) || !b.is_valid() {
+                        return Err(viol("C05", "check_flag_mismatch", format!("at {}: is_in_check(W)={} (ref {}), is_in_check(B)={} (ref {}), is_valid={}", v.to_fen(), b.is_in_check(&Color::WHITE), wc, b.is_in_check(&Color::BLACK), bc, b.is_valid())));
+                    }
+                    let got = uci_sorted(&b.generate_legal_moves());
+                    let want = v.legal_uci();
+                    if got != want {
+                        let mated_confusion = got.is_empty() != want.is_empty();
+                        return Err(viol(if mated_confusion { "C05" } else { "C01" }, if mated_confusion { "no_legal_moves_mismatch" } else { "legal_move_set_mismatch" }, format!("at {}: got {:?} want {:?}", v.to_fen(), got, want)));
+                    }
+                    if want.is_empty() {
+                        self.res.bump(if wc || bc { "probe.grid_mate" } else { "probe.grid_stalemate" });
+                    }
+                    if wc || bc {
+                        self.res.bump("probe.grid_check");
+                    }
+                }
+                self.res.bump("op.king_grid");
+                self.res.add("grid_positions_checked", checked);
+                Ok(())
+            }
             Op::EvalSym => {
                 let has_moves = self.rf.has_legal_move();
                 let e1 = inkayaku_engine_core::verif::static_eval(&self.bb, has_moves);
@@ -1554,6 +1611,7 @@ pub fn op_name(op: &Op) -> &'static str {
         Op::Variant(_) => "Variant",
         Op::SanLogReplay => "SanLogReplay",
         Op::EvalSym => "EvalSym",
+        Op::KingGrid(_) => "KingGrid",
     }
 }
 
@@ -1567,6 +1625,7 @@ fn op_property(op: &Op) -> &'static str {
         Op::Checkpoint(_) | Op::Corrupt(_) | Op::JumpTo(_) => "C12",
         Op::Variant(_) => "C06",
         Op::EvalSym => "C11",
+        Op::KingGrid(_) => "C05",
     }
 }
 
